@@ -408,6 +408,54 @@ Proof.
   rewrite psub_Val by lia. cbn [bind]. rewrite psub_Val by lia. cbn [bind fst snd].
   rewrite N.sub_0_r, N.min_0_r. reflexivity.
 Qed.
+(* ---- implementor flavours (added w4): the region type writes the capability method itself (own = true)
+   or inherits the provided body (own = false) *)
+Lemma host_address_own_lemma L a : gm_get_host_address_fl find true L a = gm_get_host_address find L a.
+Proof. reflexivity. Qed.
+Lemma get_slice_own_lemma L a c : gm_get_slice_fl find true L a c = gm_get_slice find L a c.
+Proof. reflexivity. Qed.
+Lemma host_address_fl_lemma own L a : inv L -> a < W64 ->
+  gm_get_host_address_fl find own L a =
+  Val (match find L a with
+       | Some i => if own then inl (i, a - fst (nth i L dreg)) else inr EHostAddressNotAvailable
+       | None => inr EInvalidGuestAddress end).
+Proof.
+  intros HL Ha. destruct own.
+  - rewrite host_address_own_lemma. apply host_address_lemma; assumption.
+  - unfold gm_get_host_address_fl. rewrite to_region_addr_lemma by assumption. cbn [bind].
+    destruct (find L a) as [i|]; reflexivity.
+Qed.
+Lemma get_slice_fl_lemma own L a c : inv L -> a < W64 ->
+  gm_get_slice_fl find own L a c =
+  Val (match find L a with
+       | None => inr EInvalidGuestAddress
+       | Some i => let p := nth i L dreg in
+                   if own then (if a + c <=? fst p + snd p then inl (i, a - fst p, c) else inr EInvalidBackendAddress)
+                   else inr EHostAddressNotAvailable
+       end).
+Proof.
+  intros HL Ha. destruct own.
+  - rewrite get_slice_own_lemma. apply get_slice_val; assumption.
+  - unfold gm_get_slice_fl. rewrite to_region_addr_lemma by assumption. cbn [bind].
+    destruct (find L a) as [i|]; reflexivity.
+Qed.
+(* whatever the flavour, a slice of c >= 1 bytes that IS granted lies inside one region and is
+   (that region, offset a - start, c bytes); a host pointer that is granted is the right one *)
+Lemma flavour_grants_only_inside own L a c : inv L -> a < W64 ->
+  (forall i off n, gm_get_slice_fl find own L a c = Val (inl (i, off, n)) ->
+     find L a = Some i /\ a + c <= fst (nth i L dreg) + snd (nth i L dreg) /\ off = a - fst (nth i L dreg) /\ n = c) /\
+  (forall i off, gm_get_host_address_fl find own L a = Val (inl (i, off)) ->
+     find L a = Some i /\ off = a - fst (nth i L dreg)).
+Proof.
+  intros HL Ha. split.
+  - intros i off n. rewrite get_slice_fl_lemma by assumption.
+    destruct (find L a) as [j|]; [|discriminate]. cbv zeta. destruct own; [|discriminate].
+    destruct (N.leb_spec (a + c) (fst (nth j L dreg) + snd (nth j L dreg))) as [Hle|Hgt]; [|discriminate].
+    intros E. injection E as E1 E2 E3. subst j off n. auto.
+  - intros i off. rewrite host_address_fl_lemma by assumption.
+    destruct (find L a) as [j|]; [|discriminate]. destruct own; [|discriminate].
+    intros E. injection E as E1 E2. subst j off. auto.
+Qed.
 End Queries.
 
 (* ------------------------------------------------------------------------------------------ *)
@@ -459,6 +507,44 @@ Proof.
       replace (a + (fst p + snd p - a)) with (fst p + snd p) in * by lia. apply mappedb_iff. tauto.
 Qed.
 
+(* ---- region-level accessors of every flavour (added w4) *)
+Lemma region_host_address_lemma own ln x :
+  (forall p, fl_get_host_address own ln x = inl p -> x < ln /\ p = x) /\
+  (own = true -> x < ln -> fl_get_host_address own ln x = inl x) /\
+  (own = true -> ln <= x -> fl_get_host_address own ln x = inr EInvalidBackendAddress) /\
+  (own = false -> fl_get_host_address own ln x = inr EHostAddressNotAvailable).
+Proof.
+  unfold fl_get_host_address, reg_get_host_address, rd_get_host_address, r_check_address, r_address_in_range.
+  destruct own; (split; [|split; [|split]]); try discriminate; try reflexivity;
+    destruct (N.ltb_spec x ln); intros; try discriminate; try lia; try reflexivity.
+  match goal with H : inl _ = inl _ |- _ => injection H as <- end. split; [assumption|reflexivity].
+Qed.
+Lemma region_get_slice_lemma own ln x n :
+  (forall off c, fl_get_slice own ln x n = inl (off, c) -> x + n <= ln /\ off = x /\ c = n) /\
+  (own = true -> ln < W64 -> x + n <= ln -> fl_get_slice own ln x n = inl (x, n)) /\
+  (own = true -> ln < x + n -> fl_get_slice own ln x n = inr EInvalidBackendAddress) /\
+  (own = false -> fl_get_slice own ln x n = inr EHostAddressNotAvailable).
+Proof.
+  unfold fl_get_slice, reg_get_slice, rd_get_slice, checked_add.
+  destruct own; (split; [|split; [|split]]); try discriminate; try reflexivity.
+  - intros off c. destruct (N.ltb_spec (x + n) W64); [|discriminate].
+    destruct (N.ltb_spec ln (x + n)); [discriminate|]. intros E. injection E as <- <-. lia.
+  - intros _ Hl Hle. destruct (N.ltb_spec (x + n) W64); [|lia]. destruct (N.ltb_spec ln (x + n)); [lia|reflexivity].
+  - intros _ Hgt. destruct (N.ltb_spec (x + n) W64); [|reflexivity]. destruct (N.ltb_spec ln (x + n)); [reflexivity|lia].
+Qed.
+Lemma region_as_volatile_slice_lemma own ln : ln < W64 ->
+  fl_as_volatile_slice own ln = if own then inl (0, ln) else inr EHostAddressNotAvailable.
+Proof.
+  intros Hl. unfold fl_as_volatile_slice, r_as_volatile_slice. destruct own.
+  - apply (proj1 (proj2 (region_get_slice_lemma true ln 0 ln))); [reflexivity|exact Hl|lia].
+  - reflexivity.
+Qed.
+
+Lemma flavour_own_is_base_lemma (find : layout -> N -> option nat) L a c :
+  gm_get_host_address_fl find true L a = gm_get_host_address find L a /\
+  gm_get_slice_fl find true L a c = gm_get_slice find L a c.
+Proof. split; reflexivity. Qed.
+
 Definition wf_case02 (c : case02) : Prop :=
   wf_layout_gen (c2_L c) /\ c2_a c < W64 /\ c2_b c < W64 /\ c2_c c < W64 /\
   (is_rop (c2_op c) = true -> c2_a c < N.of_nat (length (c2_L c))).
@@ -486,8 +572,8 @@ Proof. induction l as [|x t IH]; cbn [list_eqbN]; [reflexivity|]. rewrite N.eqb_
 
 Lemma C02_model_ok_lemma : forall c, wf_case02 c -> ok_C02 c (run_C02 c) = true.
 Proof.
-  intros [m L op a b cc] (Hwf & Ha & Hb & Hc & Hidx). cbn [c2_mode c2_L c2_op c2_a c2_b c2_c] in *.
-  unfold ok_C02, run_C02. cbn [c2_mode c2_L c2_op c2_a c2_b c2_c].
+  intros [m L op a b cc hc sc] (Hwf & Ha & Hb & Hc & Hidx). cbn [c2_mode c2_L c2_op c2_a c2_b c2_c c2_host c2_slice] in *.
+  unfold ok_C02, run_C02. cbn [c2_mode c2_L c2_op c2_a c2_b c2_c c2_host c2_slice].
   destruct op; cbn [is_rop] in Hidx.
   - (* find_region *)
     destruct (lin_cases L a Ha) as [(i & F & Hi & Hr & HM)|[F HM]]; rewrite F, HM.
@@ -530,20 +616,22 @@ Proof.
       destruct (proj1 Hwf p Hp) as (H1 & H2 & H3).
       apply Hmax. exists p. split; [exact Hp|]. unfold In_reg. lia.
   - (* get_host_address *)
-    rewrite (host_address_lemma find_lin wf_layout_gen idwf linspec L a Hwf Ha). cbn [o_out].
-    destruct (lin_cases L a Ha) as [(i & F & Hi & Hr & HM)|[F HM]]; rewrite F, HM.
-    + cbn [o2_k o2_x o2_y o2_z mk]. rewrite nthr_nat by exact Hi. bsplit; [apply N.ltb_lt; lia|apply inreg_iff; exact Hr|apply N.eqb_refl..].
+    rewrite (host_address_fl_lemma find_lin wf_layout_gen idwf linspec hc L a Hwf Ha). cbn [o_out].
+    destruct (lin_cases L a Ha) as [(i & F & Hi & Hr & HM)|[F HM]]; rewrite F, HM; unfold granted.
+    + destruct hc; [|reflexivity].
+      cbn [o2_k o2_x o2_y o2_z mk]. rewrite nthr_nat by exact Hi. bsplit; [apply N.ltb_lt; lia|apply inreg_iff; exact Hr|apply N.eqb_refl..].
     + reflexivity.
   - (* get_slice *)
     destruct (N.eqb_spec b 0) as [Hb0|Hb0]; [reflexivity|].
-    rewrite (get_slice_val find_lin wf_layout_gen idwf linspec L a b Hwf Ha). cbn [o_out].
-    destruct (N.ltb_spec a W64) as [_|]; [|lia]. rewrite andb_true_r.
+    rewrite (get_slice_fl_lemma find_lin wf_layout_gen idwf linspec sc L a b Hwf Ha). cbn [o_out].
+    destruct (N.ltb_spec a W64) as [_|]; [|lia]. rewrite andb_true_r. unfold granted.
     destruct (lin_cases L a Ha) as [(i & F & Hi & Hr & HM)|[F HM]]; rewrite F.
     + cbv zeta. set (p := nth i L dreg) in *.
       destruct (N.leb_spec (a + b) (fst p + snd p)) as [Hle|Hgt].
       * assert (X : existsb (fun p0 => inreg p0 a && (a + b <=? fst p0 + snd p0)) L = true).
         { apply existsb_exists. exists p. split; [apply nth_In; exact Hi|]. bsplit; [apply inreg_iff; exact Hr|apply N.leb_le; exact Hle]. }
-        rewrite X. cbn [o2_k o2_x o2_y o2_z mk]. rewrite nthr_nat by exact Hi. fold p.
+        rewrite X. destruct sc; [|reflexivity].
+        cbn [o2_k o2_x o2_y o2_z mk]. rewrite nthr_nat by exact Hi. fold p.
         bsplit; [apply N.ltb_lt; lia|apply inreg_iff; exact Hr|apply N.leb_le; exact Hle|apply N.eqb_refl..].
       * assert (X : existsb (fun p0 => inreg p0 a && (a + b <=? fst p0 + snd p0)) L = false).
         { destruct (existsb _ L) eqn:E; [|reflexivity]. exfalso. apply existsb_exists in E.
@@ -552,7 +640,7 @@ Proof.
           destruct (In_nth _ _ dreg Hq) as (j & Hj & Ej).
           assert (j = i). { apply (proj2 Hwf j i a Hj Hi); [rewrite Ej; exact Hq2|exact Hr]. }
           subst j. fold p in Ej. subst q. lia. }
-        rewrite X. reflexivity.
+        rewrite X. destruct sc; reflexivity.
     + assert (X : existsb (fun p0 => inreg p0 a && (a + b <=? fst p0 + snd p0)) L = false).
       { destruct (existsb _ L) eqn:E; [|reflexivity]. exfalso. apply existsb_exists in E.
         destruct E as (q & Hq & Hq2). apply andb_true_iff in Hq2. destruct Hq2 as [Hq2 _]. apply inreg_iff in Hq2.
@@ -580,6 +668,27 @@ Proof.
     destruct (inreg (nthr L a) b) eqn:E.
     + apply inreg_iff in E. rewrite (r_to_region_addr_in _ _ E). cbn. rewrite !N.eqb_refl. reflexivity.
     + rewrite r_to_region_addr_out; [reflexivity|]. intros H. apply inreg_iff in H. congruence.
+  - (* region get_host_address *)
+    unfold granted. destruct (region_host_address_lemma hc (snd (nthr L a)) b) as (_ & G1 & G2 & G3).
+    destruct (N.ltb_spec b (snd (nthr L a))) as [Hin|Hout]; destruct hc;
+      rewrite ?(G1 eq_refl Hin), ?(G2 eq_refl Hout), ?(G3 eq_refl); cbn; rewrite ?N.eqb_refl; reflexivity.
+  - (* region get_slice *)
+    specialize (Hidx eq_refl).
+    assert (Hin : In (nthr L a) L).
+    { unfold nthr. destruct (N.ltb_spec a (N.of_nat (length L))); [|lia]. apply nth_In. lia. }
+    destruct (proj1 Hwf _ Hin) as (H1 & H2 & H3).
+    destruct (N.eqb_spec cc 0) as [Hc0|Hc0]; [reflexivity|].
+    unfold granted. destruct (region_get_slice_lemma sc (snd (nthr L a)) b cc) as (_ & G1 & G2 & G3).
+    destruct (N.leb_spec (b + cc) (snd (nthr L a))) as [Hle|Hgt]; destruct sc;
+      rewrite ?(G1 eq_refl H2 Hle), ?(G2 eq_refl Hgt), ?(G3 eq_refl); cbn; rewrite ?N.eqb_refl; reflexivity.
+  - (* region as_volatile_slice *)
+    specialize (Hidx eq_refl).
+    assert (Hin : In (nthr L a) L).
+    { unfold nthr. destruct (N.ltb_spec a (N.of_nat (length L))); [|lia]. apply nth_In. lia. }
+    destruct (proj1 Hwf _ Hin) as (H1 & H2 & H3).
+    rewrite region_as_volatile_slice_lemma by exact H2. unfold granted.
+    destruct sc; cbn; rewrite ?N.eqb_refl; reflexivity.
+  - reflexivity.
 Qed.
 
 Lemma iter_lemma : forall L, gm_iter L = L /\ gm_num_regions L = N.of_nat (length L).
